@@ -51,7 +51,11 @@ TINYX == <<Sel(<<Metric("tiny"), Eq("a", "x")>>)>>
 HO == <<Sel(<<Re("__name__", "ho|ho2", <<"ho", "ho2">>)>>)>>
 HP == <<Sel(<<Re("__name__", "hp|hp2", <<"hp", "hp2">>)>>)>>
 OLD == <<Sel(<<Metric("old")>>)>>
+SumGap == Over(GAP, LAMBDA c : Agg("sum", TRUE, <<>>, <<c>>))
 Plans == <<
+  \* scalar() over an aggregation that has no input at some steps (the empty steps come out as NaN, at their own time)
+  F1("scalar", SumGap), F1("vector", F1("scalar", Over(GAP, LAMBDA c : Agg("max", TRUE, <<>>, <<c>>)))),
+  Join(F1("scalar", Over(GAP, LAMBDA c : Agg("count", TRUE, <<"a">>, <<c>>))), <<Num(1)>>, LAMBDA a, b : Bin("+", a, b)),
   OLD, F1("timestamp", OLD), Over(OLD, LAMBDA c : Agg("sum", TRUE, <<>>, <<c>>)), <<RFn("rate", <<Metric("old")>>, 3, 0, "none", 0)>>,
   <<RFn("sum_over_time", <<Metric("old")>>, 2, 1, "none", 0)>>, <<SelOff(<<Metric("old")>>, 2)>>, <<SelAt(<<Metric("old")>>, 0, "lit", -3)>>,
   Join(OLD, <<Fn("time", <<>>)>>, LAMBDA a, b : Bin("-", a, b)), <<Fn("time", <<>>)>>, <<RFn("last_over_time", <<Metric("old")>>, 2, 0, "start", 0)>>,
